@@ -2187,17 +2187,60 @@ def preprocess_file(
             return line_res
 
     def expand_func_macro(def_name: str, def_value: tuple[str, str]):
-        def_args, sub = def_value
-        def_args = def_args.split(",")
-        regex = re.compile(
-            rf"\b{re.escape(def_name)}\s*\({','.join(['(.*)']*len(def_args))}\)"
-        )
-        # The body is text, not a regex template: keep its own backslashes literal
-        sub = sub.replace("\\", "\\\\")
-        for i, arg in enumerate(def_args, start=1):
-            sub = re.sub(rf"\b({arg.strip()})\b", rf"\\{i}", sub)
+        def_args, body = def_value
+        def_args = [arg.strip() for arg in def_args.split(",")]
+        regex = re.compile(rf"\b{re.escape(def_name)}\s*\(")
+        arg_regex = None
+        if any(def_args):
+            arg_regex = re.compile(
+                rf"\b(?:{'|'.join(re.escape(arg) for arg in def_args if arg)})\b"
+            )
 
-        return regex, sub
+        def substitute(line: str) -> tuple[str, int]:
+            """Replace every call of the macro, the arguments are the text between
+            the commas at the top level of the balanced argument list"""
+            out = []
+            pos = 0
+            nsubs = 0
+            while True:
+                match = regex.search(line, pos)
+                if match is None:
+                    break
+                depth = 1
+                args = []
+                start = end = match.end(0)
+                while end < len(line):
+                    char = line[end]
+                    if char == "(":
+                        depth += 1
+                    elif char == ")":
+                        depth -= 1
+                        if depth == 0:
+                            break
+                    elif char == "," and depth == 1:
+                        args.append(line[start:end])
+                        start = end + 1
+                    end += 1
+                if depth != 0:
+                    # Unbalanced, e.g. a call continued on the next line
+                    break
+                args.append(line[start:end])
+                if len(args) != len(def_args):
+                    out.append(line[pos : end + 1])
+                    pos = end + 1
+                    continue
+                arg_map = dict(zip(def_args, args))
+                expansion = body
+                if arg_regex is not None:
+                    expansion = arg_regex.sub(lambda m: arg_map[m.group(0)], body)
+                out.append(line[pos : match.start(0)])
+                out.append(expansion)
+                pos = end + 1
+                nsubs += 1
+            out.append(line[pos:])
+            return "".join(out), nsubs
+
+        return substitute
 
     def append_multiline_macro(def_value: str | tuple, line: str):
         if isinstance(def_value, tuple):
@@ -2339,7 +2382,9 @@ def preprocess_file(
             # This also does not allow for multiline argument list definitions.
             # if match.group(3):
             #     def_name += match.group(3)
-            if (match.group(1) == "define") and (def_name not in defs_tmp):
+            if match.group(1) == "define":
+                # A redefinition replaces the macro, also its compiled pattern
+                def_regexes.pop(def_name, None)
                 eq_ind = line[match.end(0) :].find(" ")
                 if eq_ind >= 0:
                     # Handle multiline macros
@@ -2358,6 +2403,7 @@ def preprocess_file(
                 defs_tmp[def_name] = def_value
             elif (match.group(1) == "undef") and (def_name in defs_tmp):
                 defs_tmp.pop(def_name, None)
+                def_regexes.pop(def_name, None)
             log.debug("%s !!! Define statement(%d)", line.strip(), i + 1)
             continue
         # Handle include files
@@ -2417,14 +2463,12 @@ def preprocess_file(
                     def_regex = re.compile(rf"\b{re.escape(def_tmp)}\b")
                 def_regexes[def_tmp] = def_regex
 
-            if isinstance(def_regex, tuple):
-                def_regex, value = def_regex
-                template = value
+            if callable(def_regex):
+                line_new, nsubs = def_regex(line)
             else:
                 # The macro body is inserted literally (it may contain backslashes)
                 template = str(value).replace("\\", "\\\\")
-
-            line_new, nsubs = def_regex.subn(template, line)
+                line_new, nsubs = def_regex.subn(template, line)
             if nsubs > 0:
                 log.debug(
                     "%s !!! Macro sub(%d) '%s' -> '%s'",
